@@ -10,8 +10,11 @@
    either the expected MsgSeqNum or, from state continuous, a MsgSeqNum above it (then the session's own
    ResendRequest for its gap precedes the answer and takes the number next_send), and
    always_seqnum_assign is off (with that option fix8 renumbers what it resends by design: outside the
-   property, see the suite's ASSUMPTIONS).  Known before the step (from the previous snapshots): the
-   store (the concatenation of the STORE deltas), next_send = N, the persister kind.
+   property, see the suite's ASSUMPTIONS).  Known before the step: which numbers are stored (the
+   concatenation of the STORE deltas of the previous snapshots), next_send = N, the persister kind, and for
+   every number the message ORIGINALLY TRANSMITTED with it (the first new message carrying that MsgSeqNum among
+   the earlier OUT events): a resent message is judged against that original, not against what the persister
+   reads back later.
 
    Invalid range ((End < Begin and End <> 0) or Begin = 0):
      the answer is exactly one Reject (35=3) carrying RefSeqNum = the request's number, RefMsgType = 2
@@ -173,7 +176,9 @@ Record ost := mkOst {
   o_state : N;
   o_send : N;
   o_recv : N;
-  o_cont : option N          (* the next new message must carry this number *)
+  o_cont : option N;         (* the next new message must carry this number *)
+  o_wire : list (N * bytes)  (* number -> the message as it was ORIGINALLY transmitted (first new message with that
+                                number on the wire; PossDup copies and SequenceResets are not transmissions of a number) *)
 }.
 
 Fixpoint store_remove (k : N) (l : list (N * bytes)) : list (N * bytes) :=
@@ -185,7 +190,7 @@ Fixpoint store_set (k : N) (v : bytes) (l : list (N * bytes)) : list (N * bytes)
   match l with
   | [] => [(k, v)]
   | (a, w) :: l' => if k <? a then (k, v) :: l
-                    else if a =? k then (k, v) :: l'
+                    else if a =? k then (a, w) :: l'          (* a stored record never changes: keep what was seen first *)
                     else (a, w) :: store_set k v l'
   end.
 Fixpoint apply_delta (d : list (N * option bytes)) (l : list (N * bytes)) : list (N * bytes) :=
@@ -194,6 +199,29 @@ Fixpoint apply_delta (d : list (N * option bytes)) (l : list (N * bytes)) : list
   | (k, Some v) :: d' => apply_delta d' (store_set k v l)
   | (k, None) :: d' => apply_delta d' (store_remove k l)
   end.
+
+(* the original transmissions of a step: new messages (no PossDupFlag, not a SequenceReset) by MsgSeqNum *)
+Definition new_on_wire (evs : list event) : list (N * bytes) :=
+  flat_map (fun e => match e with
+                     | EOut raw =>
+                       let t := tokens raw in
+                       match tok_get (tagb T_MsgType) t, num_tok T_MsgSeqNum t with
+                       | Some ty, Some k =>
+                         if beq ty [52] || flag_set (tok_get (tagb T_PossDupFlag) t) then [] else [(k, raw)]
+                       | _, _ => []
+                       end
+                     | _ => []
+                     end) evs.
+Fixpoint wire_add (l : list (N * bytes)) (w : list (N * bytes)) : list (N * bytes) :=
+  match l with
+  | [] => w
+  | (k, raw) :: l' => wire_add l' (store_set k raw w)       (* the first transmission of a number wins *)
+  end.
+(* the store the answer is judged against: the stored NUMBERS are those the persister lists; the message
+   under a number is what was originally transmitted with that number (the store's own bytes only when the
+   trace never showed such a transmission) *)
+Definition original_store (st wire : list (N * bytes)) : list (N * bytes) :=
+  map (fun kv => (fst kv, match store_get (fst kv) wire with Some w => w | None => snd kv end)) st.
 
 Definition outs (evs : list event) : list item :=
   flat_map (fun e => match e with EOut raw => [parse_out raw] | EOutRaw _ => [IBad] | _ => [] end) evs.
@@ -251,17 +279,19 @@ Definition c18_step (o : ost) (oper : op) (s : step) : option ost :=
   let items := outs (st_events s) in
   let sp' := match oper with OStart p _ => p | _ => o_sp o end in
   let fresh := match oper with OStart _ _ => true | ORestart => true | _ => false end in
+  (* a new session object without files starts numbering and storing afresh *)
+  let wire0 := if fresh then match sp_pk sp' with PFile => o_wire o | _ => [] end else o_wire o in
   let next (cont : option N) : ost :=
     match st_snap s with
     | Some sn => mkOst sp' (apply_delta (sn_store sn) (o_store o))
-                       (sn_state sn) (sn_send sn) (sn_recv sn) cont
-    | None => mkOst sp' (o_store o) (o_state o) (o_send o) (o_recv o) cont
+                       (sn_state sn) (sn_send sn) (sn_recv sn) cont (wire_add (new_on_wire (st_events s)) wire0)
+    | None => mkOst sp' (o_store o) (o_state o) (o_send o) (o_recv o) cont (wire_add (new_on_wire (st_events s)) wire0)
     end in
   match (if has_ret (st_events s) then request_of o oper else None) with
   | Some (reqseq, b, e, ahead) =>
     match st_snap s with
     | Some sn =>
-      let st := match sp_pk (o_sp o) with PNone => [] | _ => o_store o end in
+      let st := match sp_pk (o_sp o) with PNone => [] | _ => original_store (o_store o) (o_wire o) end in
       let ok :=
         if ahead then
           (* first our own ResendRequest, a new message numbered next_send; then the answer *)
@@ -305,7 +335,7 @@ Fixpoint c18_steps (o : ost) (ops : list op) (tr : trace) : bool :=
   | _, _ => false
   end.
 
-Definition ost0 : ost := mkOst default_sp [] 0 0 0 None.
+Definition ost0 : ost := mkOst default_sp [] 0 0 0 None [].
 
 Definition c18_ok (ops : list op) (tr : trace) : bool := c18_steps ost0 ops tr.
 
